@@ -50,7 +50,7 @@ def _fingerprint(stmts, live, whole=False, captured=None):
         return None
     # falling off the end of a function is `return None`
     body = frozenset(
-        (canon_trace(p.trace), "return" if whole and p.kind == "fall" else p.kind, "None" if whole and p.kind == "fall" else p.value, p.env)
+        (canon_trace(p.trace, p.value), "return" if whole and p.kind == "fall" else p.kind, "None" if whole and p.kind == "fall" else p.value, p.env)
         for p in ps
     )
     asserts = frozenset(a for p in ps for a in p.asserts) | frozenset(nested)
